@@ -958,8 +958,28 @@ func (g *Gen) closureStmt(o *out, d int) {
 			o.line("for %s := range %d {", i, k)
 		}
 		x := g.name("x")
-		o.line("\t%s := %s * 10", x, i)
-		o.line("\t%s = append(%s, func() int { %s++; return %s + %s })", fs, fs, x, i, x)
+		// the per-iteration variable is defined from different source shapes:
+		// each has its own "fresh variable on :=" path in the interpreter
+		switch g.pick("cllvsrc", 3, 3, 2, 2) {
+		case 0:
+			o.line("\t%s := %s * 10", x, i)
+			o.line("\t%s = append(%s, func() int { %s++; return %s + %s })", fs, fs, x, i, x)
+		case 1:
+			g.needIdent = true
+			o.line("\t%s := identInt(%s * 10)", x, i)
+			o.line("\t%s = append(%s, func() int { %s++; return %s + %s })", fs, fs, x, i, x)
+			g.use("closure-loopvar-call")
+		case 2:
+			o.line("\t%s := [2]int{%s, %s * 10}", x, i, i)
+			o.line("\t%s = append(%s, func() int { %s[0]++; return %s[0] + %s[1] })", fs, fs, x, x, x)
+			g.use("closure-loopvar-array")
+		default:
+			g.needIdent = true
+			y := g.name("y")
+			o.line("\t%s, %s := identInt(%s), %s * 10", x, y, i, i)
+			o.line("\t%s = append(%s, func() int { %s++; %s--; return %s*100 + %s })", fs, fs, x, y, x, y)
+			g.use("closure-loopvar-multi")
+		}
 		o.line("}")
 		f := g.name("f")
 		o.line("for _, %s := range %s {", f, fs)
